@@ -21,7 +21,7 @@ RULE = ("per curve accepted by the build: (law) ep_neg/add_*/sub/dbl_*/norm/norm
         "enumerated once and then sampled; (mul) every ep_mul_* / ep_mul_pre_*+ep_mul_fix_* on subgroup points "
         "(O, G, small multiples, random) with scalars 0,+-1,2,n-1,n,n+1,2n,jn+-1,n^2,negatives,2^j,2^j-1,alternating "
         "patterns, up to RLC_BN_BITS bits, GLV boundary values; (sim) every ep_mul_sim_* on pairs incl. P=Q, P=-Q, O, "
-        "sim_lot for n=0..40, sim_dig.  Scalar classes: residue (r0: k=0 mod n, k!=0; r1: k=1 mod n; r) and range "
+        "sim_lot for n=0..40, sim_dig for n=0..40 (n=0 of sim_dig / norm_sim: one directed case).  Scalar classes: residue (r0: k=0 mod n, k!=0; r1: k=1 mod n; r) and range "
         "(in: |k|<n; ge: |k|>=n within the regular-recoding length; wide: up to the recoding buffer; long: beyond). "
         "Verdict: 0<=k<n must give [k]P without error; other scalars may raise an error or give [k]P; "
         "results of multiplications must be affine with Z=1 (or Z=0) and canonical digits. "
@@ -41,13 +41,13 @@ KNOWN = os.path.join(os.path.dirname(os.path.dirname(os.path.dirname(os.path.abs
 def parts(tier):
     q = tier == "quick"
     return [dict(part="law", cfg="asan256", shards=2 if q else 4),
-            dict(part="mul", cfg="asan256", shards=4 if q else 8),
+            dict(part="mul", cfg="asan256", shards=5 if q else 8),
             dict(part="sim", cfg="asan256", shards=3 if q else 6),
             dict(part="law", cfg="asan255", shards=1 if q else 2),
             dict(part="mul", cfg="asan255", shards=1 if q else 3),
             dict(part="sim", cfg="asan255", shards=1 if q else 2),
             dict(part="law", cfg="asan381", shards=1 if q else 2),
-            dict(part="mul", cfg="asan381", shards=2 if q else 4),
+            dict(part="mul", cfg="asan381", shards=1 if q else 4),
             dict(part="sim", cfg="asan381", shards=1 if q else 3)]
 
 
@@ -56,6 +56,8 @@ def parts(tier):
 # When the entry disappears from known_findings.jsonl or is marked fixed, the class is generated at
 # full rate again, so a regression is reported.
 CONFINE = {
+    "norm_sim_n0": "ep_norm_sim|n0*",
+    "sim_dig_n0": "ep_mul_sim_dig|n0*",
     "fix_lwnaf_r0": "ep_mul_fix_lwnaf|*|r0|*",
     "lwreg_long": "ep_mul_lwreg|plain|*|?long*",
     "trick_r01": "ep_mul_sim_trick|*|[!i]*|r01|*",
@@ -733,10 +735,35 @@ class W(object):
             if r != t:
                 R.free(r)
 
-    def part_law(self, cv):
+    def norm_sim_n0(self, cv):
+        """ep_norm_sim over zero points: nothing to do, nothing may be touched"""
+        ctx, R = self.ctx, self.R
+        key = "ep_norm_sim|n0"
+        if not self.begin(key, {"curve": cv.name, "n": 0}, nontrivial=False):
+            return
+        t = R.mem(0)
+        try:
+            res = R.call("ep_norm_sim", t, t, 0)
+            ctx.check(not res.caught, key + "|unexpected-error", {"err": res.err})
+        except MonitorViolation as e:
+            ctx.fail(key + "|" + e.kind, e.detail)
+        finally:
+            ctx.end()
+            R.free(t)
+
+    def edge_n0(self, name, first):
+        """whether the n = 0 case of a routine runs here: everywhere once it is repaired; while it is a known fatal
+        finding, only as the very first case of shard 0 of the base configuration"""
+        if name in self.confined:
+            return first and self.ctx.shard == 0 and self.ctx.cfg == "asan256"
+        return self.ctx.shard == 0
+
+    def part_law(self, cv, first=False):
         ctx, R, rng = self.ctx, self.R, self.rng
         B = self.BASIC
         idx = [0]
+        if self.edge_n0("norm_sim_n0", first):
+            self.norm_sim_n0(cv)
 
         def mine():
             idx[0] += 1
@@ -921,7 +948,9 @@ class W(object):
         ctx = self.ctx
         if res.caught:
             ctx.check(not inrange, key + "|unexpected-error", {"err": res.err})
-            ctx.add("errors_on_out_of_range_scalars", 0 if inrange else 1)
+            if not inrange:
+                d = self.info.setdefault("errors_on_out_of_range_scalars", {})
+                d[fn] = d.get(fn, 0) + 1
             return
         self.verdict_point(cv, out, exp, affine=True)
         for ptr, before in ins:
@@ -1097,7 +1126,7 @@ class W(object):
         for f in ("ep_mul_pre_yaowi", "ep_mul_pre_nafwi", "ep_mul_fix_yaowi", "ep_mul_fix_nafwi"):
             self.has(f)
         ds = self.directed_scalars(cv)
-        self.info.setdefault("directed_scalars_per_curve", {})[cv.name] = len(ds)
+        self.info.setdefault("directed_scalars_per_curve", {})[cv.name] = str(len(ds))
         # base points: G, a small multiple, random ones, the identity
         bases = [cv.pool[0], cv.pool[rng.randrange(1, 8)], cv.pool[11], cv.pool[12], (0, None)]
         idx = 0
@@ -1112,12 +1141,12 @@ class W(object):
                 if bi in (1, 3, 4) and rng.random() < 0.7:
                     continue
                 self.mul_group(cv, d, P, k, fns, tabs)
-            N = ctx.n(60, 2500) if bi != 4 else ctx.n(6, 100)
+            N = ctx.n(60, 1500) if bi != 4 else ctx.n(6, 100)
             for it in range(N):
                 self.mul_group(cv, d, P, self.random_scalar(cv), fns, tabs)
             self.free_tables(tabs)
         # fresh random points without tables (variable-base routines only), incl. in-place and native coordinates
-        for it in range(ctx.n(80, 4000)):
+        for it in range(ctx.n(80, 2500)):
             d, P = cv.rand_sub()
             self.mul_group(cv, d, P, self.random_scalar(cv), fns, [])
         # digits
@@ -1349,6 +1378,8 @@ class W(object):
                                   rng.randrange(1 << 8)]))
         ncl = "n1" if cnt == 1 else "n"
         key = "ep_mul_sim_dig|%s|%s|%s" % (cv.kind, ncl, "allzero" if not any(ks) else "k")
+        if cnt == 0:
+            key = "ep_mul_sim_dig|n0"
         desc = {"curve": cv.name, "n": cnt, "d": [hx(d) for d, _ in pts][:8], "k": [hx(k) for k in ks][:8]}
         if not self.begin(key, desc):
             return
@@ -1386,6 +1417,8 @@ class W(object):
         two = [f for f in fns if f != "ep_mul_sim_gen"]
         ds = self.directed_scalars(cv)
         self.dscal = ds
+        if self.has("ep_mul_sim_dig") and self.edge_n0("sim_dig_n0", first):
+            self.sim_dig(cv, 0)
         if first and ctx.shard == 0 and "trick_r01" in self.confined and "ep_mul_sim_trick" in fns:
             dP, P = cv.pool[11]
             dQ, Q = cv.pool[12]
@@ -1409,7 +1442,7 @@ class W(object):
                 if rng.random() < 0.5:
                     k, m = m, k
                 self.sim_group(cv, dP, P, k, dQ, Q, m, fns if dP == 1 else two)
-        for it in range(ctx.n(150, 6000)):
+        for it in range(ctx.n(150, 4000)):
             dP, P, dQ, Q = self.pick_pair(cv)
             self.sim_group(cv, dP, P, self.random_scalar(cv), dQ, Q, self.random_scalar(cv), fns if dP == 1 else two)
         for it in range(ctx.n(30, 1000)):
@@ -1441,7 +1474,7 @@ def run(ctx, part):
         cv = w.setup(nm, ident, law=(part == "law"))
         w.info.setdefault("curve_kinds", {})[nm] = "%s/%s/h=%s" % (cv.kind, cv.atag, "1" if cv.h == 1 else ">1")
         if part == "law":
-            w.part_law(cv)
+            w.part_law(cv, first)
         elif part == "mul":
             w.part_mul(cv, first)
         elif part == "sim":
